@@ -206,7 +206,7 @@ def run_case(inp):
                 sc = np.asarray(ld.score([tmpl], mask=mask, alignment_model=M[name], **kw)[0], dtype=float)
                 model = M[name](tmpl, mask, **kw)
                 want = np.array([float(model.score(subs[i], quats[i], mpos[i].astype(np.float32))) for i in range(nmol)])
-                if np.abs(sc - want).max() > 3e-4:
+                if not (np.abs(sc - want).max() <= 3e-4):
                     V("loader-score", f"loader.score ({name}) differs from Model.score of the same sub-volumes / orientations by "
                                       f"{np.abs(sc - want).max():.4f}")
                 lds = np.asarray(ld.construct_landscape(tmpl, mask=mask, max_shifts=1.0, alignment_model=M[name], **kw).compute())
@@ -218,7 +218,7 @@ def run_case(inp):
                         break
                 if name == "ZNCC":
                     cs = np.array([float(lds[i][tuple(x // 2 for x in lds[i].shape)]) for i in range(nmol)])
-                    if np.abs(cs - sc).max() > 3e-4:
+                    if not (np.abs(cs - sc).max() <= 3e-4):
                         V("agree", f"loader: ZNCC landscape centres {np.round(cs, 4).tolist()} vs scores {np.round(sc, 4).tolist()}")
         elif kind == "multi":
             # several templates (no rotation search): every candidate's score is the Pearson correlation with
@@ -244,7 +244,7 @@ def run_case(inp):
                 lds = np.asarray(model.landscape(sub, (1.0, 1.0, 1.0), quaternion=quat, pos=pos))
                 if lds.ndim == 4:
                     cs = [float(lds[(j,) + tuple(x // 2 for x in lds.shape[1:])]) for j in range(len(temps))]
-                    if np.abs(np.array(cs) - np.array(wants)).max() > 3e-4:
+                    if not (np.abs(np.array(cs) - np.array(wants)).max() <= 3e-4):
                         V("multi-template", f"{name} landscape centres {np.round(cs, 6).tolist()} vs per-template "
                                             f"correlations {np.round(wants, 6).tolist()} (mask={inp['mask']})")
                 self_res = model.align(t2, (0.0, 0.0, 0.0), quaternion=quat, pos=pos)
@@ -270,7 +270,7 @@ def run_case(inp):
                 idx = np.array(np.unravel_index(int(np.argmax(lds)), lds.shape))
                 lag = idx - np.array(lds.shape) // 2
                 sh = np.asarray(model.align(sub2, m, quaternion=quat, pos=pos).shift, dtype=float)
-                if np.abs(lag - sh).max() > 0.3:
+                if not (np.abs(lag - sh).max() <= 0.3):
                     V("landscape-argmax", f"{name}: landscape maximum at lag {lag.tolist()} but alignment "
                                           f"reports {np.round(sh, 2).tolist()} (true {d.tolist()})")
         elif kind == "history":
